@@ -71,9 +71,9 @@ def _small_files(rnd, n, kind):
     return out
 
 
-def make_cas(files, lead=128):
+def make_cas(files, lead=128, gapflag=0):
     spec = [dict(name=f["name"][:8].ljust(8).encode(), ftype=f["ftype"], dtype=f["dtype"], load=f["load"], exec=f["exec"],
-                 data=f["data"], gap1=128, lead1=lead, gap2=128, lead2=lead, gapflag=0, bgap=0, blead=1,
+                 data=f["data"], gap1=128, lead1=lead, gap2=128, lead2=lead, gapflag=gapflag, bgap=16, blead=32,
                  chunks=[255] * (len(f["data"]) // 255) + ([len(f["data"]) % 255] if len(f["data"]) % 255 else []))
             for f in files]
     return casref.write(spec)
